@@ -17,6 +17,7 @@ class Script:
         self.pos = 0
         self.used = set()
         self.pre_bad = {}
+        self.writes = []
         self.inputs = inputs
         self.log = []
 
@@ -70,6 +71,7 @@ def install_stubs(cpu, inputs, iset):
 
     def wr(what):
         def f(address, size, *rest):
+            sc.writes.append((address, size, rest[-1]))
             chk(what, address, size, *rest)
             n, ent = sc.next(what, address, size)
             if ent is not None and ent[1].endswith('fault'):
@@ -298,8 +300,30 @@ def replay(iset, memarch, nregions, inputs, ob):
             for k in MC.CFG_BOOL + list(MC.CFG_INT):
                 st0['cfg.' + k] = cfgs.get(k)
             bad = False
+
+            class NativeMem:
+                """the spec's view of memory in a replay: reads return the scripted values, writes are logged"""
+
+                def __init__(self):
+                    self.used = set()
+                    self.writes = []
+
+                def read(self, kind, priv, addr, size):
+                    for j, e in enumerate(sc.accesses):
+                        if e is not None and j not in self.used and e[1] == 'R' and e[2] == addr and e[3] == size:
+                            self.used.add(j)
+                            return e[4] or 0
+                    return 0
+
+                def write(self, kind, priv, addr, size, value):
+                    self.writes.append((addr, size, value))
+            real_writes = []
+            for l in sc.log:
+                if '_set' in l:
+                    real_writes.append(l)
             for r in matching:
-                exp, s_unpred, s_undef = SS.spec_step(r, st0, instr, 'arm' if iset == 'arm' else 'thumb', 16 if iset == 'thumb16' else 32)
+                nm = NativeMem()
+                exp, s_unpred, s_undef = SS.spec_step(r, st0, instr, 'arm' if iset == 'arm' else 'thumb', 16 if iset == 'thumb16' else 32, mem=nm)
                 if kind == 'post.unpred':
                     lines.append('spec: UNDEFINED=%s ; real executed normally=%s' % (bool(s_undef), exc is None))
                     bad = bad or (bool(s_undef) and exc is None)
@@ -309,7 +333,11 @@ def replay(iset, memarch, nregions, inputs, ob):
                     continue
                 diff = {k: (_h(final[k]), _h(exp[k])) for k in final if k not in STEP.SCRATCH and final[k] != exp.get(k)}
                 lines.append('leaf differences (real, spec): %s' % diff)
-                bad = bad or bool(diff) or exc is not None or any('_set' in l for l in sc.log)
+                rw = sorted((w[0], w[1], w[2]) for w in sc.writes)
+                sw = sorted(nm.writes)
+                if rw != sw:
+                    lines.append('memory writes real %s spec %s' % ([(hex(a), s_, hex(v)) for a, s_, v in rw], [(hex(a), s_, hex(v)) for a, s_, v in sw]))
+                bad = bad or bool(diff) or exc is not None or rw != sw
     elif kind == 'frame':
         bad = set(vars(cpu)) - {'mem_a_get', 'mem_u_get', 'mem_u_unpriv_get', 'mem_a_set', 'mem_u_set', 'mem_u_unpriv_set',
                                 'translate_address', 'alignment_fault', 'fetch_instruction'} != MC.KNOWN_CPU_ATTRS
